@@ -69,13 +69,135 @@ class GSym(LSym):
         I.append((r'^<' + CM + r'(Projective|Affine)NielsPoint as core::default::Default>::default$', lambda it, a, n: it.put(a[0], G(), (4 if 'Projective' in n else 3) * self.fs)))
         I.append((r'^<' + EP + r' as core::clone::Clone>::clone$', lambda it, a, n: it.put(a[0], it.get(a[1]), 4 * self.fs)))
         I.append((r'^<' + EP + r' as zeroize::Zeroize>::zeroize$', lambda it, a, n: it.put(a[0], G(), 4 * self.fs)))
+        # ---- vector backends (AVX2 / IFMA): ExtendedPoint and CachedPoint are 160-byte objects holding the same group element;
+        # the target-feature macro wraps every method as  outer -> __Impl_x__::_impl_x ; whichever is reached first is intercepted
+        VE = r'curve25519_dalek::backend::vector::(avx2|ifma)::edwards::'
+        EXT = VE + r'ExtendedPoint'; CAC = VE + r'CachedPoint'
+        T_ = r'(::__Impl_\w+__>::_impl_\w+)?$'
+        S4 = 4 * self.fs
+        cp = lambda it, a, n: it.put(a[0], it.get(a[1]), S4)
+        I.append((EXT + r' as core::convert::From<curve25519_dalek::edwards::EdwardsPoint>>::from' + T_, cp))
+        I.append((r'impl core::convert::From<' + EXT + r'> for curve25519_dalek::edwards::EdwardsPoint>::from' + T_, cp))
+        I.append((CAC + r' as core::convert::From<' + EXT + r'>>::from' + T_, cp))
+        I.append((EXT + r'::double' + T_, lambda it, a, n: it.put(a[0], it.get(a[1]).scale(2), S4)))
+        def vpow2(it, a, n):
+            k = it.P(a[2])
+            if not k.is_const(): raise Unsupported("mul_by_pow_2 with symbolic exponent")
+            return it.put(a[0], it.get(a[1]).scale(1 << k.cval()), S4)
+        I.append((EXT + r'::mul_by_pow_2' + T_, vpow2))
+        I.append((EXT + r' as core::ops::arith::Add<&' + CAC + r'>>::add' + T_, binop(1, S4)))
+        I.append((EXT + r' as core::ops::arith::Sub<&' + CAC + r'>>::sub' + T_, binop(-1, S4)))
+        I.append((CAC + r' as core::ops::arith::Neg>::neg' + T_, lambda it, a, n: it.put(a[0], -it.get(a[1]), S4)))
+        I.append((r'(' + EXT + r'|' + CAC + r') as (curve25519_dalek::traits::Identity>::identity|core::default::Default>::default)' + T_, lambda it, a, n: it.put(a[0], G(), S4)))
         I.append((r'^curve25519_dalek::window::LookupTable(Radix\d+)?<T>::select$', lambda it, a, n: it.table_select(a, n)))
         I.append((r'^curve25519_dalek::window::NafLookupTable(5|8)<T>::select$', lambda it, a, n: it.naf_select(a, n)))
         I.append((r'^curve25519_dalek::scalar::Scalar::as_radix_16$', lambda it, a, n: it.radix16(a)))
         I.append((r'^curve25519_dalek::scalar::Scalar::as_radix_2w$', lambda it, a, n: it.radix2w(a)))
         I.append((r'^curve25519_dalek::scalar::Scalar::non_adjacent_form$', lambda it, a, n: it.naf(a)))
+        I.append((r'^core::cmp::impls::<impl core::cmp::Ord for i(8|16)>::cmp$', lambda it, a, n: it.ord_cmp(a, n)))
 
     def count(self, k): self.kcalls[k] = self.kcalls.get(k, 0) + 1
+    # ------------------------------------------------------------------ data-dependent 3-way branches on a digit's sign
+    def ord_cmp(self, a, name):
+        """<i8 as Ord>::cmp(&x, &y): an abstract Sign when x is a symbolic digit and y a constant; the `match` on it is executed
+        arm by arm and merged at the join point (LSym.fork_merge)"""
+        w = 8 if "i8" in name else 16
+        x = self.load(a[0], w // 8); y = self.load(a[1], w // 8)
+        xv = self.digit_value(x, w); yv = self.digit_value(y, w)
+        d = self.ctx.resolve(xv - yv)
+        lo, hi = self.ctx.interval(d)
+        if lo > 0: return Poly.const(1)
+        if hi < 0: return Poly.const(255)
+        if lo == 0 and hi == 0: return ZERO
+        return Sign(d)
+    def switch_arms(self, v, ins):
+        if not isinstance(v, Sign): return None
+        lo, hi = self.ctx.interval(v.d)
+        tg = {}
+        for cval, l in ins[5]: tg[cval & 255] = l
+        arms = []
+        if lo < 0: arms.append((tg.get(255, ins[4]), ("lt", v.d)))
+        if lo <= 0 <= hi: arms.append((tg.get(0, ins[4]), ("eq", v.d)))
+        if hi > 0: arms.append((tg.get(1, ins[4]), ("gt", v.d)))
+        return arms
+    def _single_var(self, d):
+        """d = +-v + c for one variable v  ->  (v, sign, c)"""
+        items = [(m, c) for m, c in d.t.items() if m]
+        if len(items) == 1 and len(items[0][0]) == 1 and items[0][1] in (1, -1):
+            return items[0][0][0], items[0][1], d.cval()
+        return None
+    def enter_arm(self, desc):
+        kind, d = desc
+        cond = Cond("cmp", kind, d, ZERO)
+        self.path.append(cond)
+        sv = self._single_var(d)
+        tok = None
+        if sv is not None:
+            v, sg, c = sv
+            lo, hi = self.ctx.bounds[v]; tok = (v, (lo, hi))
+            # sg*v + c  (kind) 0
+            if kind == "eq": nl = nh = (-c) * sg if sg == 1 else c
+            elif (kind == "gt") == (sg == 1):      # v > -c (sg=1,gt)  or  -v + c < 0 -> v > c (sg=-1,lt)
+                b = (-c if sg == 1 else c) + 1; nl, nh = max(lo, b), hi
+            else:
+                b = (-c if sg == 1 else c) - 1; nl, nh = lo, min(hi, b)
+            self.ctx.bounds[v] = (nl, nh)
+            if hasattr(self.ctx, "_ivcache"): self.ctx._ivcache = {}
+        return tok
+    def leave_arm(self, desc, tok):
+        self.path.pop()
+        if tok is not None:
+            self.ctx.bounds[tok[0]] = tok[1]
+            if hasattr(self.ctx, "_ivcache"): self.ctx._ivcache = {}
+    def merge_cell(self, base, per):
+        """cells holding group elements / integers that differ between the arms of a digit-sign match.
+        (1) all arms agree with one candidate expression E once the arm's equality (d == 0) is substituted -> E;
+        (2) otherwise  base + sum_arm [arm condition] * (value_arm - base)  with boolean indicator variables."""
+        from .lsym import _MISSING
+        ents = [e for _, e in per]
+        if any(e is _MISSING for e in ents) or base is _MISSING:
+            # a cell written in some arms only and dead before: scratch of the arm (e.g. a temporary); keep the first written value
+            for e in ents:
+                if e is not _MISSING: return e
+            return _MISSING
+        k, size = ents[0][1], ents[0][2]
+        if any(e[1] != k or e[2] != size for e in ents): raise Unsupported("merged arms leave differently shaped objects in a cell")
+        vals = [e[0] for e in ents]
+        okey = tuple(id(v) for v in vals) + (id(base[0]),)
+        self._mcache.setdefault(("keep", okey), (vals, base))
+        if ("obj", okey) in self._mcache: return (self._mcache[("obj", okey)], k, size)
+        if all(isinstance(v, G) for v in vals):
+            def subst_arm(g, desc):
+                if desc[0] != "eq": return g
+                sv = self._single_var(desc[1])
+                if sv is None: return g
+                v, sg, c = sv; val = Poly.const(-c if sg == 1 else c)
+                return G({b: p.subst(v, val) for b, p in g.c.items()})
+            for cand_i, (desc_c, _) in enumerate(per):
+                if desc_c[0] == "eq": continue
+                cand = vals[cand_i]
+                if all(subst_arm(cand, d).eq(subst_arm(v, d)) for (d, _), v in zip(per, vals)):
+                    return (self.shared_obj(("obj", okey), lambda: cand), k, size)
+            if not isinstance(base[0], G): raise Unsupported("merge of group elements over a non-group base cell")
+            acc = base[0]
+            for (d, _), v in zip(per, vals):
+                b = self.boolvar(Cond("cmp", d[0], d[1], ZERO))
+                acc = acc + (v - base[0]).scale(b)
+            self.general_merges = getattr(self, "general_merges", 0) + 1
+            return (self.shared_obj(("obj", okey), lambda: acc), k, size)
+        if all(isinstance(v, Poly) for v in vals) and isinstance(base[0], Poly) and size <= 8:
+            acc = base[0]
+            for (d, _), v in zip(per, vals):
+                b = self.boolvar(Cond("cmp", d[0], d[1], ZERO))
+                acc = acc + (v - base[0]) * b
+            return (self.shared_obj(("obj", okey), lambda: acc), k, size)
+        raise Unsupported("cannot merge cell values %r" % ([type(v).__name__ for v in vals],))
+    def shared_obj(self, key, make):
+        """all bytes of one merged object must share the SAME python object (loads reassemble objects by identity);
+        the cache lives for one fork_merge and keeps the keyed objects alive (no id reuse)"""
+        c = self._mcache
+        if key not in c: c[key] = make()
+        return c[key]
     # ------------------------------------------------------------------ signed digits flowing through integer code
     def cast(self, kind, fty, v, tty):
         if isinstance(v, SDigit):
@@ -115,10 +237,36 @@ class GSym(LSym):
             raise Unsupported("abstract signed digit used as an unsigned integer")
         return super().P(v)
     # ------------------------------------------------------------------ abstract objects in memory
+    def global_region(self, gname):
+        name = "global:" + gname
+        fresh = name not in self.regions
+        p = super().global_region(gname)
+        if fresh and not self.__dict__.get("_in_static"):
+            sp = self.__dict__.get("_static_pts")
+            if sp is None:
+                self._in_static = True
+                try: sp = self._static_pts = self.static_regions(("vp_c_basepoint", "vp_c_ristretto_basepoint"))
+                finally: self._in_static = False
+                for rn in sp:      # the basepoint constant is the formal base point "B" wherever it is copied to (value: C12)
+                    self.put(Ptr(rn, 0), G.base("B"), 4 * self.fs)
+        return p
+    def static_regions(self, hooks):
+        out = {}
+        for h in hooks:
+            f = self.mod.aliases.get(h, h)
+            if f in self.mod.funcs:
+                sub = LSym(self.mod); sub.regions = self.regions; sub.nreg = self.nreg + 100000
+                r = sub.call(f, [])
+                if isinstance(r, Ptr): out[r.r] = h
+        return out
     def get(self, p):
         if not isinstance(p, Ptr): raise Unsupported("point operand is not a pointer")
         e = self.regions[p.r].b.get(p.o)
         if e is not None and isinstance(e[0], G) and e[1] == 0: return e[0]
+        if p.r.startswith("global:") and p.o == 0:
+            sp = self.__dict__.get("_static_pts")
+            if sp is None: sp = self._static_pts = self.static_regions(("vp_c_basepoint", "vp_c_ristretto_basepoint"))
+            if p.r in sp: self.count("static_basepoint"); return G.base("B")      # ED25519_BASEPOINT_POINT (value: C12)
         raise Unsupported("point operand at %r is not an abstract group element" % (p,))
     def put(self, p, g, size):
         R = self.regions[p.r]
@@ -174,9 +322,10 @@ class GSym(LSym):
         d = self.digits.get(key)
         if d is None:
             m = (1 << (w - 1)) - 1
-            vs = [self.ctx.input("%s_n%d_%d" % (tag, w, i), -m, m) for i in range(256)]
+            win = getattr(self, "naf_window", None)      # bounded mode: positions outside the window hold the digit 0
+            vs = [(self.ctx.input("%s_n%d_%d" % (tag, w, i), -m, m) if (win is None or i in win) else ZERO) for i in range(256)]
             d = dict(kind="naf%d" % w, vars=vs, weights=[1 << i for i in range(256)]); self.digits[key] = d
-        for i, v in enumerate(d["vars"]): self.store(Ptr(a[0].r, a[0].o + i), SDigit(v, 8), 1)
+        for i, v in enumerate(d["vars"]): self.store(Ptr(a[0].r, a[0].o + i), SDigit(v, 8) if not v.is_zero() else Poly.const(0), 1)
 
     def digit_value(self, x, w=8):
         """signed integer value (Poly) of a digit operand"""
@@ -213,7 +362,7 @@ class GSym(LSym):
         if not ok: raise TableLemmaFailed("lookup table entries are not the multiples 1..%d of the first entry" % n)
         lo, hi = self.ctx.interval(self.ctx.resolve(x))
         if lo < -n or hi > n: raise DigitOutOfRange("select called with digit range [%d,%d] outside [-%d,%d]" % (lo, hi, n, n))
-        size = stride if stride else e_size(self, out, ents)
+        size = stride if stride else 3 * self.fs      # static tables hold AffineNielsPoint entries
         self.put(out, ents[0].scale(x), size)
     def naf_select(self, a, name):
         """NafLookupTable5/8::select(x): T[x/2] for odd x: lemma T[j] == (2j+1)*T[0] => x*T[0] for odd 0 < x < 2^(w-1)"""
@@ -224,13 +373,47 @@ class GSym(LSym):
         xv = a[2]
         x = xv.v if isinstance(xv, SDigit) else self.P(xv)
         if isinstance(xv, NegDigit): x = -xv.v
+        lo, hi = self.ctx.interval(self.ctx.resolve(x))
+        if lo < 1 or hi > 2 * n - 1:
+            raise DigitOutOfRange("NafLookupTable%d::select called with an index in [%d,%d], outside [1,%d]" % (w, lo, hi, 2 * n - 1))
+        R = self.regions[tab.r]
+        if R.kind == "global":
+            # static table of odd multiples of the basepoint (entries: C12); the formal base point is "B"
+            if tab.r not in self.static_naf_tables(): raise Unsupported("unknown static NAF table " + tab.r[-60:])
+            if tab.o != 0: raise Unsupported("static NAF table accessed at an offset")
+            self.count("static_naf_select")
+            esz = R.size // n if R.size else 3 * self.fs
+            return self.put(out, G.base("B").scale(x), esz)
         ents, stride = self.table_entries(tab, n)
         ok = all(ents[j].eq(ents[0].scale(2 * j + 1)) for j in range(n))
         self.lemmas.append(("NAF table at %s is [1,3,..,%d]*T0" % (tab.r, 2 * n - 1), ok))
         if not ok: raise TableLemmaFailed("NAF table entries are not the odd multiples of the first entry")
         self.put(out, ents[0].scale(x), stride)
+    def static_naf_tables(self):
+        """regions of the static tables of odd multiples of the basepoint, found through the accessor hooks that C12 uses to
+        read them (so the table meant here is exactly the one whose 64 entries C12 checks to be (2j+1)*B)"""
+        t = self.__dict__.get("_snt")
+        if t is None:
+            t = set()
+            for h in ("vp_c_affine_odd_multiples", "vp_c_avx2_odd_table", "vp_c_ifma_odd_table"):
+                f = self.mod.aliases.get(h, h)
+                if f in self.mod.funcs:
+                    sub = LSym(self.mod)
+                    sub.regions = self.regions; sub.nreg = self.nreg + 100000
+                    r = sub.call(f, [])
+                    if isinstance(r, Ptr): t.add(r.r)
+            self._snt = t
+        return t
     def static_lookup(self, tab, n):
-        raise Unsupported("static table lookup not modelled for this harness")
+        """ED25519_BASEPOINT_TABLE / RISTRETTO_BASEPOINT_TABLE: 32 radix-16 sub-tables, sub-table i holds (j+1)*256^i*B (entries: C12)"""
+        st = self.__dict__.get("_static_tabs")
+        if st is None: st = self._static_tabs = self.static_regions(("vp_c_basepoint_table", "vp_c_ristretto_basepoint_table"))
+        if tab.r not in st: raise Unsupported("unknown static lookup table " + tab.r[-60:])
+        esz = 3 * self.fs; sub = 8 * esz
+        if n != 8 or tab.o % sub: raise Unsupported("static basepoint table accessed at an unexpected offset/radix")
+        i = tab.o // sub
+        self.count("static_table_select")
+        return [G.base("B").scale((j + 1) * (256 ** i)) for j in range(n)]
 
 def e_size(it, out, ents): return 4 * it.fs
 
@@ -239,6 +422,9 @@ class DigitOutOfRange(Exception): pass
 
 class ScalarObj:
     def __init__(self, tag): self.tag = tag
+class Sign:
+    """three-way comparison result (-1 / 0 / 1) of the integer d with 0, d symbolic"""
+    def __init__(self, d): self.d = d
 class SDigit:
     """a signed digit (i8/i16 machine value) carried abstractly: v is its integer value as a Poly"""
     def __init__(self, v, w): self.v, self.w = v, w
